@@ -109,7 +109,7 @@ def getNxt (j : Json) : Except String (Rat → Rat) := do
   pure (nxtOfList ps)
 
 /-- `{"op":"C20.run","left":..,"right":..,"feature":..,"threshold":[[n,d]..],"value":[[n,d]..],
-      "X":[[[n,d]..]..],"m":..,"nxt":[[[n,d],[n,d]]..],"consts":[[n,d]..],"recs":null|[..]}` -/
+      "X":[[[n,d]..]..],"m":..,"nxt":[[[n,d],[n,d]]..],"consts":[[n,d]..],"recs":null|[..],"fast":bool?,"X2":rows?}` -/
 def run : Handler := fun j => do
   let t ← getTree j
   let X ← getRows j
@@ -122,8 +122,14 @@ def run : Handler := fun j => do
   let wf := wellFormed t X m nxt
   let treePred := X.map fun x => treePredict t x
   let paths := X.map fun x => pathFrom t x t.n 0
-  let base := [("wf", Json.bool wf), ("fitted", Json.bool (fitted t X)), ("tree_pred", jRats treePred), ("paths", jNatss paths),
+  -- `"fast": true` (directed cases with >= 1000 nodes): only the cheap parts - `wellFormed`, the tree's own descent, and
+  -- the checker on the implementation's records (which itself demands that every node has a record with a non-empty
+  -- path behind it); the quadratic parts (`fitted`, the model run with `topsByLeq` and the trace) are skipped
+  let fast := match j.getObjVal? "fast" with | .ok (.bool b) => b | _ => false
+  let base := [("wf", Json.bool wf), ("fitted", if fast then Json.null else Json.bool (fitted t X)),
+               ("tree_pred", jRats treePred), ("paths", jNatss paths),
                ("recs_ok", match implRecs with | none => Json.null | some rs => Json.bool (checkRecs t X rs))]
+  if fast then pure (Json.mkObj (base ++ [("fast", Json.bool true)])) else
   match fromDecisionTree t X m nxt with
   | .error e => pure (Json.mkObj (base ++ [("conv", jErr e)]))
   | .ok L =>
@@ -163,7 +169,24 @@ def run : Handler := fun j => do
         ("mul_imul", exceptRats (predict p1 X m id)),
         ("mul_imul_idiv", exceptRats (predict p2 X m id)),
         ("pure", Json.bool (self1 == L && (match q with | none => true | some (s, _) => s == L)))] ++ divs)
-    pure (Json.mkObj (base ++ [("conv", conv), ("recs", recs), ("hyps", hyps), ("pred", exceptRats pred),
+    -- `"X2"`: the rows of ANOTHER context over the same columns; the lattice converted on `X` is traced on it
+    -- (`Fca.C20.dl_predict_other_context`)
+    let other ← match j.getObjVal? "X2" with
+      | .error _ => pure Json.null
+      | .ok v => do
+        let X2 ← (← arr v).mapM ratList
+        let tr := traceContext L.lat X2 m id
+        pure (Json.mkObj [
+          ("wf", Json.bool (wellFormed t X2 m nxt)),
+          ("tree_pred", jRats (X2.map fun x => treePredict t x)),
+          ("pred", exceptRats (predict L X2 m id)),
+          ("trace_ok", match tr with
+            | .error _ => Json.bool false
+            | .ok rs => Json.bool (traceKeysOK t L.decisions rs && tracePathOK t X2 rs)),
+          ("recs", match tr with
+            | .error e => jErr e
+            | .ok rs => Json.mkObj [("ok", Json.arr ((sortRecs rs).map jRec).toArray)])])
+    pure (Json.mkObj (base ++ [("conv", conv), ("recs", recs), ("hyps", hyps), ("pred", exceptRats pred), ("other", other),
       ("order_indep", Json.bool ((exceptRats pred).compress == (exceptRats predRev).compress)), ("scaled", Json.arr scaled.toArray)]))
 
 def handlers : List (String × Handler) := [("C20.run", run)]
